@@ -41,7 +41,7 @@ ITEMS = {
     'trace_config': (['C11', 'C02'], 'trace Config::validate'),
     'vector_config': (['C11', 'C02'], 'vector Config::validate'),
     'vector_root': (['C04', 'C05'], 'compute_root_from_queries / hash_friendly_unfriendly'),
-    'vector_decommit': (['C04', 'C05'], 'vector_commitment_decommit'),
+    'vector_decommit': (['C04', 'C05', 'C07'], 'vector_commitment_decommit'),
     'table_decommit': (['C05'], 'table_decommit / generate_vector_queries'),
     'fri_group': (['C06'], 'get_fri_group'),
     'fri_formula': (['C06'], 'fri_formula'),
